@@ -3,7 +3,13 @@
 # time; patches touching .yaml files go through mutant.sh (go:embed ignores
 # build overlays) sequentially at the end. Output: mutants/RESULTS.txt
 cd "$(dirname "${BASH_SOURCE[0]}")/.." || exit 2
-out=mutants/RESULTS.txt; tmp=$(mktemp -d); trap 'rm -rf $tmp' EXIT
+# The catalogue takes more than an hour: it runs from a snapshot of the harness
+# (scripts + mc sources), so that /verif can be edited meanwhile.
+out=$(pwd)/mutants/RESULTS.txt; tmp=$(mktemp -d); snap=$(mktemp -d /tmp/vsnap.XXXXXX); trap 'rm -rf $tmp $snap' EXIT
+rsync -a --exclude .git --exclude mc/bin --exclude mc/.overlay --exclude evidence --exclude replays ./ "$snap/"
+verifhead=$(git log --format=%h -1)
+cd "$snap" || exit 2
+export VERIF_ROOT="$snap"
 grep -v '^#' mutants/MAP.txt | grep -v '^$' > $tmp/all
 : > $tmp/iso; : > $tmp/inplace
 while read -r p props; do
@@ -22,5 +28,5 @@ if [ "${MUTANT_INPLACE:-0}" = 1 ]; then
 else
   while read -r p props; do i=$((i+1)); echo "mutant $p: skipped (touches .yaml: run with MUTANT_INPLACE=1)" > $tmp/r.$i; done < $tmp/inplace
 fi
-{ echo "# $(date -u +%FT%TZ) repo=$(git -C /repo log --format=%h -1) verif=$(git log --format=%h -1)"; cat $tmp/r.* | cut -c1-260; } > $out
+{ echo "# $(date -u +%FT%TZ) repo=$(git -C /repo log --format=%h -1) verif=$verifhead"; cat $tmp/r.* | cut -c1-260; } > $out
 grep -c DETECTED $out; grep -c "MISSED\|BUILD-FAILED\|does not apply\|suite: FAIL\|suite: BUILD" $out
